@@ -1,4 +1,5 @@
 import Rare.Proofs.C19F64b
+import Rare.Proofs.F64Arith
 /-!
 C19, round 4c: facts about the mirrored trigonometric functions and `exp2` that hold for ALL operands
 (`Model/C19Trig.lean`, `IEEE.exp2`): the special values Go documents, and the symmetries the code has bit for bit
@@ -267,5 +268,258 @@ theorem exp2_special (x : F64) :
       simp at h ⊢
       omega
     unfold exp2; simp [hn, hi, h, h2]
+
+end Rare.C19.IEEE
+
+/-! ### `exp2` of an integer is exactly the power of two -/
+
+namespace Rare.C19.IEEE
+open Rare Rare.F64
+
+theorem half_val : half.toRat? = some (1/2 : Rat) := by
+  rw [toRat?_eq_some]
+  refine ⟨by decide, ?_⟩
+  unfold toRat
+  have hs : half.sign = false := by decide
+  have hm : half.mag = 4602678819172646912 := by decide
+  rw [hs, hm]
+  simp only [Bool.false_eq_true, if_false]
+  unfold magVal
+  have h1 : magScale 4602678819172646912 = 1021 := by decide
+  have h2 : magSig 4602678819172646912 = 4503599627370496 := by decide
+  rw [h1, h2, two1074_eq]
+  have e : (4503599627370496 * 2 ^ 1021 : Nat) = 2 ^ 1073 := by
+    rw [show (4503599627370496 : Nat) = 2 ^ 52 by decide, ← Nat.pow_add]
+  have e2 : (2 ^ 1074 : Nat) = 2 ^ 1073 * 2 := by rw [← Nat.pow_succ]
+  rw [e, e2, Rat.natCast_mul]
+  have hp : ((2 ^ 1073 : Nat) : Rat) ≠ 0 := Rat.ne_of_gt (pow2_cast_pos 1073)
+  generalize ((2 ^ 1073 : Nat) : Rat) = A at hp
+  rw [Rat.div_def, Rat.div_def, Rat.inv_mul_rev]
+  grind
+
+/-- Half-integers of moderate size are floats. -/
+theorem rep_half_nat (m : Nat) (hm : m < P53) : Rep ((m : Rat) / 2) := by
+  have h := rep_of_dyadic m 1073 hm (by
+    have : m * 2 ^ 1073 < 2 ^ 53 * 2 ^ 1073 := Nat.mul_lt_mul_of_pos_right (by rw [pow2_53]; exact hm) (Nat.pow_pos (by decide))
+    rw [← Nat.pow_add] at this
+    exact Nat.lt_of_lt_of_le this (Nat.pow_le_pow_right (by decide) (by omega)))
+  have e2 : (2 ^ 1074 : Nat) = 2 ^ 1073 * 2 := by rw [← Nat.pow_succ]
+  rw [two1074_eq, e2, Rat.natCast_mul, Rat.natCast_mul] at h
+  have hp : ((2 ^ 1073 : Nat) : Rat) ≠ 0 := Rat.ne_of_gt (pow2_cast_pos 1073)
+  generalize ((2 ^ 1073 : Nat) : Rat) = A at hp h
+  have : (m : Rat) * A / (A * ((2 : Nat) : Rat)) = (m : Rat) / 2 := by
+    rw [Rat.div_def, Rat.div_def, Rat.inv_mul_rev]
+    have : A * A⁻¹ = 1 := Rat.mul_inv_cancel A hp
+    grind
+  rwa [this] at h
+
+end Rare.C19.IEEE
+
+namespace Rare.C19.IEEE
+open Rare Rare.F64
+
+theorem rep_half_int (n : Int) (h : n.natAbs ≤ 2000) : Rep ((n : Rat) + 1/2) ∧ Rep ((n : Rat) - 1/2) := by
+  have key : ∀ k : Int, k.natAbs ≤ 5000 → Rep ((k : Rat) / 2) := by
+    intro k hk
+    rcases Int.natAbs_eq k with e | e
+    · have := rep_half_nat k.natAbs (by omega)
+      rw [e]; exact this
+    · have := rep_neg (rep_half_nat k.natAbs (by omega))
+      rw [e, Rat.intCast_neg, Rat.div_def, Rat.neg_mul, ← Rat.div_def]; exact this
+  constructor
+  · have := key (2 * n + 1) (by omega)
+    have e : (((2 * n + 1 : Int)) : Rat) / 2 = (n : Rat) + 1/2 := by
+      rw [Rat.intCast_add, Rat.intCast_mul]; simp [Rat.div_def]; grind
+    rwa [e] at this
+  · have := key (2 * n - 1) (by omega)
+    have e : (((2 * n - 1 : Int)) : Rat) / 2 = (n : Rat) - 1/2 := by
+      rw [Rat.intCast_sub, Rat.intCast_mul]; simp [Rat.div_def]; grind
+    rwa [e] at this
+
+theorem truncRat_half_pos (n : Int) (h : 0 ≤ n) : truncRat ((n : Rat) + 1/2) = n := by
+  unfold truncRat
+  have : ¬ ((n : Rat) + 1/2 < 0) := by
+    have : (0 : Rat) ≤ (n : Rat) := by exact_mod_cast h
+    grind
+  rw [if_neg this]
+  exact floor_eq_of (by grind) (by grind)
+
+theorem truncRat_half_neg (n : Int) (h : n ≤ 0) : truncRat ((n : Rat) - 1/2) = n := by
+  unfold truncRat
+  have hn : (n : Rat) ≤ 0 := by exact_mod_cast h
+  have : (n : Rat) - 1/2 < 0 := by grind
+  rw [if_pos this]
+  have e : (-((n : Rat) - 1/2)).floor = -n := by
+    apply floor_eq_of
+    · rw [Rat.intCast_neg]; grind
+    · rw [Rat.intCast_neg]; grind
+  rw [e]; omega
+
+/-- **`exp2` of an integer is exact**: for every integer `n` of the representable range the reduction finds `k = n`,
+    `r = 0`, the polynomial answers exactly 1 and the result is `Ldexp(1, n)`. -/
+theorem exp2_int (n : Int) (h1 : -1074 ≤ n) (h2 : n ≤ 1023) : exp2 (ofInt n) = ldexp one n := by
+  have hx := isFinite_ofInt n (by omega)
+  have hq : (ofInt n).toRat? = some (n : Rat) := toRat?_eq_some.mpr hx
+  have hnan := not_nan_of_finite hx.1
+  have hinf := not_inf_of_finite hx.1
+  have hov : lt exp2Overflow (ofInt n) = false := by
+    have hle := ofInt_mono h2
+    unfold le at hle; unfold lt
+    have k1 : (ofInt 1023).key = 4652209618980700160 := by decide +kernel
+    have k2 : exp2Overflow.key = 4652218415073722367 := by decide
+    rw [k1] at hle; rw [k2]
+    simp at hle ⊢
+    intro _ _; omega
+  have hun : lt (ofInt n) exp2Underflow = false := by
+    have hle := ofInt_mono h1
+    unfold le at hle; unfold lt
+    have k1 : (ofInt (-1074)).key = -4652438317399277568 := by decide +kernel
+    have k2 : exp2Underflow.key = -4652438317399277568 := by decide
+    rw [k1] at hle; rw [k2]
+    simp at hle ⊢
+    intro _ _; omega
+  have hz : zeroP.toRat? = some ((0 : Int) : Rat) := by rw [zeroP_eq_ofInt]; exact toRat?_ofInt (by decide)
+  have hk : (if lt zeroP (ofInt n) then toInt64 (add (ofInt n) half)
+      else if lt (ofInt n) zeroP then toInt64 (sub (ofInt n) half) else 0) = n := by
+    rw [lt_int hz hq, lt_int hq hz]
+    obtain ⟨hf, hv⟩ := toRat?_eq_some.mp half_val
+    obtain ⟨r1, r2⟩ := rep_half_int n (by omega)
+    by_cases hp : 0 < n
+    · simp only [hp, decide_true, if_true]
+      have := add_exact hx.1 hf (by rw [hx.2, hv]; exact r1)
+      rw [hx.2, hv] at this
+      obtain ⟨f2, v2⟩ := toRat?_eq_some.mp this
+      unfold toInt64
+      rw [f2, v2, truncRat_half_pos n (by omega)]
+      have : ¬ (n < minInt64 ∨ maxInt64 < n) := by unfold minInt64 maxInt64; omega
+      simp [this]
+    · by_cases hm : n < 0
+      · simp only [hp, hm, decide_true, decide_false, if_true, Bool.false_eq_true, if_false]
+        have := sub_exact hx.1 hf (by rw [hx.2, hv]; exact r2)
+        rw [hx.2, hv] at this
+        obtain ⟨f2, v2⟩ := toRat?_eq_some.mp this
+        unfold toInt64
+        rw [f2, v2, truncRat_half_neg n (by omega)]
+        have : ¬ (n < minInt64 ∨ maxInt64 < n) := by unfold minInt64 maxInt64; omega
+        simp [this]
+      · simp only [hp, hm, decide_false, Bool.false_eq_true, if_false]; omega
+  have ht : sub (ofInt n) (ofInt n) = zeroP := by
+    rw [sub_finite hx.1 hx.1]
+    have : (ofInt n).toRat - (ofInt n).toRat = 0 := by grind
+    rw [this]
+    unfold ofRatS
+    simp
+    rfl
+  unfold exp2
+  simp only [hnan, hinf, hov, hun, Bool.false_or, Bool.false_and, Bool.false_eq_true, if_false]
+  rw [hk, ht]
+  have m1 : mul zeroP ln2Hi = zeroP := by decide +kernel
+  have m2 : mul (neg zeroP) ln2Lo = zero true := by decide +kernel
+  rw [m1, m2]
+  exact expmulti_zero n
+
+end Rare.C19.IEEE
+
+namespace Rare.C19.IEEE
+open Rare Rare.F64
+
+theorem pow2Z_eq (n : Int) (h : -1074 ≤ n) : pow2Z n = ((2 ^ (n + 1074).toNat : Nat) : Rat) / two1074 := by
+  unfold pow2Z
+  rw [two1074_eq]
+  have hT : ((2 ^ 1074 : Nat) : Rat) ≠ 0 := Rat.ne_of_gt (pow2_cast_pos 1074)
+  by_cases hn : n ≥ 0
+  · rw [if_pos hn]
+    have e : (n + 1074).toNat = n.toNat + 1074 := by omega
+    rw [e, Nat.pow_add, Rat.natCast_mul]
+    exact (Rat.mul_div_cancel hT).symm
+  · rw [if_neg hn]
+    have e : 1074 = (n + 1074).toNat + (-n).toNat := by omega
+    have e2 : (2 ^ 1074 : Nat) = 2 ^ (n + 1074).toNat * 2 ^ (-n).toNat := by rw [← Nat.pow_add, ← e]
+    rw [e2, Rat.natCast_mul]
+    have hA : ((2 ^ (n + 1074).toNat : Nat) : Rat) ≠ 0 := Rat.ne_of_gt (pow2_cast_pos _)
+    have hB : ((2 ^ (-n).toNat : Nat) : Rat) ≠ 0 := Rat.ne_of_gt (pow2_cast_pos _)
+    generalize ((2 ^ (n + 1074).toNat : Nat) : Rat) = A at hA
+    generalize ((2 ^ (-n).toNat : Nat) : Rat) = B at hB
+    rw [Rat.div_def, Rat.div_def, Rat.inv_mul_rev]
+    have : A * A⁻¹ = 1 := Rat.mul_inv_cancel A hA
+    grind
+
+/-- `Ldexp(1, n)` is the float `2^n`: exponent field `n + 1023` with an empty fraction in the normal range, the
+    single bit `n + 1074` in the subnormal range. -/
+theorem ldexp_one (n : Int) (h1 : -1074 ≤ n) (h2 : n ≤ 1023) :
+    ldexp one n = ofSM false (if -1022 ≤ n then (n + 1023).toNat * P52 else 2 ^ (n + 1074).toNat) := by
+  unfold ldexp
+  have z1 : one.isZero = false := by decide
+  have f1 : one.isFinite = true := by decide
+  have fr : (frexp one).2 = 1 := by decide +kernel
+  have v1 : one.toRat = 1 := by decide +kernel
+  have s1 : one.sign = false := by decide
+  simp only [z1, f1, fr, s1, Bool.not_true, Bool.or_self, Bool.false_eq_true, if_false]
+  have c1 : ¬ (1 - 1 + n < -1075) := by omega
+  have c2 : ¬ (1 - 1 + n > 1023) := by omega
+  rw [if_neg c1, if_neg c2, v1, Rat.one_mul, pow2Z_eq n h1]
+  have hpos : (0 : Rat) < ((2 ^ (n + 1074).toNat : Nat) : Rat) / two1074 := by
+    rw [Rat.div_def]
+    exact Rat.mul_pos (pow2_cast_pos _) (Rat.inv_pos.mpr two1074_pos)
+  unfold ofRatS
+  rw [if_neg (Rat.ne_of_gt hpos)]
+  have hlt : ¬ (((2 ^ (n + 1074).toNat : Nat) : Rat) / two1074 < 0) := by grind
+  have habs : absRat (((2 ^ (n + 1074).toNat : Nat) : Rat) / two1074) = ((2 ^ (n + 1074).toNat : Nat) : Rat) / two1074 := by
+    unfold absRat; rw [if_neg hlt]
+  have hm : min (rawMag (((2 ^ (n + 1074).toNat : Nat) : Rat) / two1074)) InfMag =
+      (if -1022 ≤ n then (n + 1023).toNat * P52 else 2 ^ (n + 1074).toNat) := by
+    by_cases hn : -1022 ≤ n
+    · rw [if_pos hn]
+      have e : (n + 1074).toNat = 52 + (n + 1022).toNat := by omega
+      have e2 : (2 ^ (n + 1074).toNat : Nat) = P52 * 2 ^ (n + 1022).toNat := by
+        rw [e, Nat.pow_add]
+      rw [e2, rawMag_exact (n + 1022).toNat P52 (by omega) (Or.inr (Nat.le_refl _))]
+      have : (n + 1023).toNat = (n + 1022).toNat + 1 := by omega
+      rw [this]
+      have : (n + 1022).toNat ≤ 2045 := by omega
+      omega
+    · rw [if_neg hn]
+      have hK : (n + 1074).toNat < 52 := by omega
+      have hlt52 : 2 ^ (n + 1074).toNat < P52 := by
+        have := Nat.pow_lt_pow_right (a := 2) (by decide) hK
+        simpa using this
+      have := rawMag_exact 0 (2 ^ (n + 1074).toNat) (by omega) (Or.inl rfl)
+      simp only [Nat.pow_zero, Nat.mul_one, Nat.zero_mul, Nat.zero_add] at this
+      rw [this]
+      omega
+  rw [habs, roundMag_eq, hm]
+  simp only [hlt, decide_false]
+
+/-- **`exp2(n)` is exactly `2^n`** for every integer `n` from -1074 to 1023, as a bit pattern. -/
+theorem exp2_int_bits (n : Int) (h1 : -1074 ≤ n) (h2 : n ≤ 1023) :
+    exp2 (ofInt n) = ofSM false (if -1022 ≤ n then (n + 1023).toNat * P52 else 2 ^ (n + 1074).toNat) := by
+  rw [exp2_int n h1 h2, ldexp_one n h1 h2]
+
+end Rare.C19.IEEE
+
+namespace Rare.C19.IEEE
+open Rare Rare.F64
+
+theorem ldexp_one_rat (n : Int) (h1 : -1074 ≤ n) (h2 : n ≤ 1023) : ldexp one n = ofRatS false (pow2Z n) := by
+  unfold ldexp
+  have z1 : one.isZero = false := by decide
+  have f1 : one.isFinite = true := by decide
+  have fr : (frexp one).2 = 1 := by decide +kernel
+  have v1 : one.toRat = 1 := by decide +kernel
+  have s1 : one.sign = false := by decide
+  simp only [z1, f1, fr, s1, Bool.not_true, Bool.or_self, Bool.false_eq_true, if_false]
+  have c1 : ¬ (1 - 1 + n < -1075) := by omega
+  have c2 : ¬ (1 - 1 + n > 1023) := by omega
+  rw [if_neg c1, if_neg c2, v1, Rat.one_mul]
+
+/-- The value of `exp2(n)` is the rational `2^n`, finite. -/
+theorem exp2_int_val (n : Int) (h1 : -1074 ≤ n) (h2 : n ≤ 1023) : (exp2 (ofInt n)).toRat? = some (pow2Z n) := by
+  rw [exp2_int n h1 h2, ldexp_one_rat n h1 h2, toRat?_eq_some]
+  have hr : Rep (pow2Z n) := by
+    rw [pow2Z_eq n h1]
+    have := rep_of_dyadic 1 (n + 1074).toNat (by omega) (by
+      rw [Nat.one_mul]; exact Nat.pow_lt_pow_right (by decide) (by omega))
+    rwa [Nat.one_mul] at this
+  exact ofRatS_rep false hr
 
 end Rare.C19.IEEE
